@@ -158,6 +158,25 @@ func sequences(c *rig.Ctx) {
 			s.lcdc |= 0x20
 			s.wy = r.Pick8([]uint8{144, 150, 200, 255})
 		}
+		uniform := -1
+		if i%5 == 4 {
+			// both maps show one tile everywhere, the window covers the right part of the screen
+			// down to the last line: the last row fetched in a frame and the first one fetched in
+			// the next are often the same row of the same tile
+			uniform = r.Intn(256)
+			for k := 0x1800; k < 0x2000; k++ {
+				s.vram[k] = uint8(uniform)
+			}
+			s.lcdc |= 0x20
+			s.wx = 7 + 40 + uint8(r.Intn(100))
+			s.wy = uint8(r.Intn(140))
+			s.scy = uint8((143-int(s.wy))%8) + uint8(r.Intn(32))*8
+			for k := 0; k < 160; k += 4 {
+				s.oam[k] = 0 // no objects in the way
+			}
+			s.nobj = 0
+			c.Count("sequence_uniform_map_scenes", 1)
+		}
 		m := rig.MustNew(rig.BlankROM(0, 0, 0), rig.Opts{})
 		m.Mem.Write(0xff40, 0x11)
 		*m.PPU.XVRAM() = s.vram
@@ -190,7 +209,20 @@ func sequences(c *rig.Ctx) {
 				c.Note("sequence harness: expected the vertical blank, STAT mode is %d", mode)
 				return
 			}
-			ws := mutate(r, s, c)
+			var ws []store
+			if uniform >= 0 && r.Chance(2, 3) {
+				// only the odd (high bit plane) bytes of the one visible tile change
+				for _, base := range []int{uniform * 16, 0x1000 + int(int8(uint8(uniform)))*16} {
+					for row := 0; row < 8; row++ {
+						a := base + row*2 + 1
+						s.vram[a] = r.U8()
+						ws = append(ws, store{0x8000 + uint16(a), s.vram[a]})
+					}
+				}
+				c.Count("sequence_odd_byte_tile_stores", 1)
+			} else {
+				ws = mutate(r, s, c)
+			}
 			restarted := -1
 			for k, w := range ws {
 				m.Mem.Write(w.a, w.v)
